@@ -1172,3 +1172,20 @@ def _random_arity(repo, ob, failure):
 
 
 GENERATORS.insert(0, ("C14.fn.random", _random_arity))
+
+
+def _reuse_compound_expr(repo, ob, failure):
+    """a compound size on a reused template is evaluated, then split: the instance is what the hand-written element is"""
+    import re as _re
+    cases = [('<svg><var s="3"/><rect id="t" xy="0" wh="{{$s*2}} {{$s - 1}}"/><reuse href="#t" y="10"/></svg>', r'<rect x="0" y="10" width="6" height="2"'),
+             ('<svg><specs><rect id="t" wh="{{1 + 2}}"/></specs><reuse href="#t" x="1"/></svg>', r'<rect x="1" width="3" height="3"')]
+    for doc, want in cases:
+        r = run_svgdx(repo, doc)
+        body = r["out"].split("</style>")[-1] if r["rc"] == 0 else "error: " + r["err"].strip()[-100:]
+        if not _re.search(want, body):
+            return {"input": doc, "observed": body.strip()[-160:], "expected": "/%s/" % want}
+    return None
+
+
+GENERATORS.insert(0, ("C14.reuse.evaluated", _reuse_compound_expr))
+GENERATORS.insert(0, ("C18.reuse.evaluated", _reuse_compound_expr))
